@@ -237,10 +237,6 @@ def clause_a(c: Check):
         if k == 'UNKNOWN':
             raise AnalysisError('C14-a: the line iterator of %s.as_lines is not understood (%s:%d)' % (
                 cls.key, f.module.relpath, f.node.lineno))
-        if k == 'NEWLINE-ARG' and newline_parametrised_reader(ix, cls) is not None:
-            # every view of the class opens the file with the same newline expression (a constructor parameter that
-            # defaults to the ordinary reading): the views agree; who may ask for another reading is C14-i
-            k = table[cls.key] = 'NL'
         if k == 'NEWLINE-ARG':
             c.bad('C14-a', key, '%s.as_lines opens the file with an explicit newline= argument: its line ends are not '
                                 'translated like those of as_str and of every other file-backed text (CR LF / CR)' % cls.name,
@@ -439,14 +435,8 @@ def clause_c(c: Check):
 
 # ---------------------------------------------------------------- d
 def clause_d(c: Check):
-    """newline policy: a text is read the ordinary way (text mode, universal newlines) and the memory buffer keeps
-    "\\n"; a `newline=` argument appears only (1) at the in-memory buffer (`StringIO(newline='\\n')`), (2) at the one
-    open() by which the spooled buffer creates its file on disk (`newline='\\n'`: the file holds the text as it is in
-    memory), (3) inside a reader class all of whose views pass on the same constructor parameter, (4) where such a
-    reader is constructed for the spooled buffer's own file (C14-i decides that it is that file)."""
     ix = c.ix
     n = 0
-    spooled = ix.cls('exactly_lib.util.file_utils.spooled_file:SpooledTextFile')
     for name in _text_value_modules(ix):
         t = ix.text(name)
         if 'newline' not in t:
@@ -461,32 +451,12 @@ def clause_d(c: Check):
                 f = m.enclosing_func(node)
                 where = f.key if f else name
                 v = kw[0].value
-                verbatim = isinstance(v, ast.Constant) and v.value == '\n'
                 is_buffer = unparse(node.func).endswith('StringIO')
-                d = ix.callee(m, f, node) if f is not None else None
-                if is_buffer:
-                    ok = verbatim
-                elif f is not None and f.cls is spooled and isinstance(node.func, ast.Attribute) and node.func.attr == 'open':
-                    ok = verbatim
-                elif f is not None and f.cls is not None and newline_parametrised_reader(ix, f.cls) is not None \
-                        and isinstance(node.func, ast.Attribute) and node.func.attr == 'open':
-                    ok = True
-                elif isinstance(d, ClassDef) and newline_parametrised_reader(ix, d) is not None:
-                    ok = verbatim and _is_spill_file_path(ix, m, f, node)
-                else:
-                    ok = False
+                ok = is_buffer and isinstance(v, ast.Constant) and v.value == '\n'
                 c.expect(ok, 'C14-d', 'newline-argument@' + where,
                          'a text is opened with newline=%s: its line ends are translated differently from every other '
                          'access' % unparse(v), '%s:%d' % (m.relpath, node.lineno))
     c.floor('C14-d', 'newline= arguments', n, 1)
-
-
-def _is_spill_file_path(ix: Index, m, f, call: ast.Call) -> bool:
-    """the first argument of the reader's constructor is `<spooled file>.path_of_file_on_disk`"""
-    if not call.args:
-        return False
-    a = util.resolve_temp(f, call.args[0])
-    return isinstance(a, ast.Attribute) and a.attr == 'path_of_file_on_disk'
 
 
 # ---------------------------------------------------------------- e
@@ -842,55 +812,68 @@ def clause_h(c: Check):
 
 # ---------------------------------------------------------------- i
 def clause_i(c: Check):
-    """a text that outgrows the memory buffer is moved to a file on disk and read from there afterwards: it is read
-    back AS WRITTEN.  Text in memory is kept verbatim (lines end at "\\n" only, CR is a character); the ordinary reading
-    of a text file turns CR and CR LF into "\\n" - so the spill file is created, and every reader of it is constructed,
-    with newline='\\n' (no translation, lines end at "\\n" only).  Otherwise a text with CR has one value below the
-    buffer size and another above it (`( M && M )` freezes its model: `num-lines` doubles)."""
+    """SIB between the two outcomes of freezing a text through the spooled buffer: a text that fits the memory buffer
+    is kept as it was written (the buffer's string: CR is a character, lines end at "\\n" only), a text that outgrows
+    it is moved to a file on disk and read from there afterwards.  The two must treat line ends alike, whatever the
+    text: either both keep the text as written (the spill file created and every reader of it constructed with
+    newline='\\n') or both apply the ordinary translation of a text file.  When they differ, a text with CR has one
+    division into lines below the buffer size and another above it (`( M && M )` freezes its model: `num-lines` of
+    3000 lines `a\\rb` is 3000 unfrozen and 6000 frozen).  Judged for every function that uses the spooled buffer."""
     ix, fo = c.ix, c.fo
     spooled = ix.cls('exactly_lib.util.file_utils.spooled_file:SpooledTextFile')
-    # (1) the file on disk is created verbatim
+    # how the buffer creates its file on disk
+    spill_verbatim = None
     n_open = 0
     for f in spooled.methods.values():
         for n in walk_own(f.node):
             if isinstance(n, ast.Call) and isinstance(n.func, ast.Attribute) and n.func.attr == 'open':
                 n_open += 1
-                kw = {k.arg: k.value for k in n.keywords}
-                v = kw.get('newline')
-                ok = isinstance(v, ast.Constant) and v.value == '\n'
-                c.expect(ok, 'C14-i', 'spill-file-created-verbatim/%s' % f.key,
-                         'the spooled buffer creates its file on disk with newline=%s: what is read back from it '
-                         '(directly, or by the frozen text) has CR / CR LF turned into line breaks, unlike the same text '
-                         'while it was in memory' % (unparse(v) if v is not None else 'absent (universal newlines)'),
-                         '%s:%d' % (spooled.module.relpath, n.lineno))
+                v = {k.arg: k.value for k in n.keywords}.get('newline')
+                this = isinstance(v, ast.Constant) and v.value == '\n'
+                spill_verbatim = this if spill_verbatim is None else (spill_verbatim and this)
     c.floor('C14-i', 'places where the spooled buffer creates its file', n_open, 1)
-    # (2) every reader constructed over that file reads verbatim
-    n_readers = 0
+    n_users = 0
     for s_ in util.call_sites_of(ix, spooled):
         f = s_.func
         if f is None:
             continue
-        for n in ast.walk(f.node):
-            if not isinstance(n, ast.Call):
-                continue
-            f2 = f.module.enclosing_func(n) or f
-            if not any(isinstance(x, ast.Attribute) and x.attr == 'path_of_file_on_disk' for a in n.args for x in ast.walk(a)):
-                continue
-            d = ix.callee(f.module, f2, n)
-            if not isinstance(d, ClassDef):
-                continue
-            reads_file = any(isinstance(x, ast.Call) and isinstance(x.func, ast.Attribute) and x.func.attr in ('open', 'read_text')
-                             for k in d.methods.values() for x in walk_own(k.node))
-            if not reads_file:
-                continue   # keeps the path only (as_file); its text comes from what was read through the buffer itself
-            n_readers += 1
-            attr = newline_parametrised_reader(ix, d)
-            b = util.ctor_call_args(ix, d, n) or {}
-            v = b.get('newline')
-            ok = attr is not None and isinstance(v, ast.Constant) and v.value == '\n'
-            c.expect(ok, 'C14-i', 'spill-file-read-verbatim/%s/%s' % (f2.key, d.name),
-                     '%s reads the file the spooled buffer wrote with %s: CR / CR LF in the text become line breaks once '
-                     'the text is larger than the memory buffer' % (
-                         d.name, 'newline=%s' % unparse(v) if v is not None else 'the ordinary newline translation'),
-                     '%s:%d' % (f.module.relpath, n.lineno))
-    c.floor('C14-i', 'readers constructed over the file of the spooled buffer', n_readers, 1)
+        n_users += 1
+        kinds = {}
+        for r in util.returned_values(f):
+            for v in _arms(r):
+                v = util.resolve_temp(f, v)
+                if not isinstance(v, ast.Call):
+                    continue
+                d = ix.callee(f.module, f, v)
+                if not isinstance(d, ClassDef):
+                    continue
+                mentions = lambda name: any(isinstance(x, ast.Attribute) and x.attr == name for a in v.args for x in ast.walk(a))
+                if mentions('mem_buff'):
+                    kinds['in memory: %s' % d.name] = 'as written'
+                elif mentions('path_of_file_on_disk'):
+                    reads_file = any(isinstance(x, ast.Call) and isinstance(x.func, ast.Attribute)
+                                     and x.func.attr in ('open', 'read_text')
+                                     for k in d.methods.values() for x in walk_own(k.node))
+                    if reads_file:
+                        attr = newline_parametrised_reader(ix, d)
+                        b = util.ctor_call_args(ix, d, v) or {}
+                        nv = b.get('newline')
+                        verb = attr is not None and isinstance(nv, ast.Constant) and nv.value == '\n' and bool(spill_verbatim)
+                    else:
+                        verb = bool(spill_verbatim)   # its text was read through the buffer's own file object
+                    kinds['on disk: %s' % d.name] = 'as written' if verb else 'newline-translated'
+        c.require(any(k.startswith('in memory') for k in kinds) and any(k.startswith('on disk') for k in kinds),
+                  'C14-i: the two outcomes of %s (text kept in memory / moved to disk) are not recognised: %s' % (f.key, kinds))
+        c.expect(len(set(kinds.values())) == 1, 'C14-i', 'spill-agrees-with-memory/' + f.key,
+                 'a text frozen by %s is %s: a text with CR (or CR LF made by a transformer) is divided into lines '
+                 'differently once it is larger than the memory buffer' % (
+                     f.name, '; '.join('%s %s' % kv for kv in sorted(kinds.items()))), f.loc())
+    c.floor('C14-i', 'users of the spooled buffer', n_users, 1)
+
+
+def _arms(e):
+    if isinstance(e, ast.IfExp):
+        yield from _arms(e.body)
+        yield from _arms(e.orelse)
+    else:
+        yield e
